@@ -255,6 +255,24 @@ func cmdC14(tier string, seed int64, out, statsOut, replay string) {
 	for _, f := range corpusFiles("C14") {
 		replayC14(f, w, st, emitSplit)
 	}
+	// documents written by hand, the version without quotes (YAML would read 1.10 as a number): a version is text
+	for li, lit := range []struct{ version, rest string }{{"1.10", "version_metadata: git7\n"}, {"1.20", "release: 1.20\n"}, {"2.0", "epoch: 010\nversion_metadata: b1\n"},
+		{"0.10.0", "prerelease: rc.10\n"}, {"1.10", ""}, {"010", "version_metadata: x\nversion_schema: none\n"}} {
+		doc := "name: p\narch: amd64\nversion: " + lit.version + "\n" + lit.rest
+		id := fmt.Sprintf("literal-%d", li)
+		cfg, err := nfpm.ParseWithEnvMapping(strings.NewReader(doc), func(string) string { return "" })
+		if err != nil {
+			continue
+		}
+		var rawCfg nfpm.Config
+		if yaml.Unmarshal([]byte(doc), &rawCfg) != nil {
+			continue
+		}
+		// the components as the document writes them (decoded as text by a plain decoder of the same type), against what Parse left
+		w.line("vsplit %s %s %s %s %s %s %s %s", id, xs(rawCfg.VersionSchema), xs(lit.version), xs(rawCfg.Prerelease), xs(rawCfg.VersionMetadata), xs(cfg.Version), xs(cfg.Prerelease), xs(cfg.VersionMetadata))
+		writeDesc(id, map[string]string{"kind": "split", "schema": rawCfg.VersionSchema, "version": lit.version, "prerelease": rawCfg.Prerelease, "metadata": rawCfg.VersionMetadata, "via": "a hand-written document: " + doc})
+		st.cases++
+	}
 	pick := func(l []string) string { return l[rng.Intn(len(l))] }
 	// forced: versions that are used as written (schema none, or not a semantic version) and start like a tag; explicit
 	// components a semantic-version library would not accept beside a component embedded in the version
